@@ -21,6 +21,7 @@ import json
 
 import z3
 
+from vp.world import raised_in_harness as _rih
 from vp import symx, util
 from vp.symx import oblige, zint
 from vp.world import SymWorld, NativeWorld, native_compare, model_values, evalnum
@@ -492,7 +493,7 @@ def _replay_scenario(s, model, scen, specf, what):
         text.append(f"native parameters {nw.consts}; structure {s['sid']}")
         text.append(f"REAL CODE RAISED {type(e).__name__}: {e}")
         text.append(traceback.format_exc(limit=-3))
-        return {"confirmed": True, "text": "\n".join(text)}
+        return {"confirmed": not _rih(e), "text": "\n".join(text)}
     text.append(f"native parameters {nw.consts}; structure {s['sid']}")
     tctx = symx.Ctx([])
     symx.CUR = tctx
